@@ -102,7 +102,7 @@ class C13(Sim):
             "polyline split) and >= 1 observation")
     FAULT_KINDS = ["warm", "reject"]
     PROBES = ["polygon_input", "quad_input", "closed_surface", "bordered_surface", "multi_op_block", "second_block", "area_checked", "centre_checked",
-              "input_observed", "result_observed", "volume_block", "polyline_split", "face_centre_split_interior", "sdbet", "int_coordinates", "exception_leaves_block", "boundary_of_refined_volume"]
+              "input_observed", "result_observed", "volume_block", "polyline_split", "face_centre_split_interior", "sdbet", "int_coordinates", "exception_leaves_block", "boundary_of_refined_volume", "non_list_rows"]
     QUICK_RUNS = 2500
     THOROUGH_RUNS = 250000
     BLOCK = 20
@@ -153,6 +153,7 @@ class C13(Sim):
             if rng.chance(0.3) and n > 4:
                 ed.append([1, n - 2])
             w["edges"] = ed
+        w["flavour"] = rng.wchoice(["list", "tuple", "numpy"], [3, 1, 1.5])  # how the element rows are stored (from_arrays keeps numpy rows)
         return {"world": w, "max_steps": rng.randint(4, 16), "warm_p": rng.choice([0.0, 0.5, 1.0]), "max_ops": rng.randint(1, 4),
                 "ops_off": rng.subset(["triangulate_face", "split_face_as_fan", "triangulate", "loop", "3quads", "6", "cell_fan", "face_center", "sdbet"], 0.2),
                 "levels": rng.choice([1, 1, 2])}
@@ -166,11 +167,15 @@ class C13(Sim):
         d.vertices += [list(p) for p in w["points"]]
         if w.get("int_coords"):
             self.probes["int_coordinates"] += 1
+        fl = w.get("flavour", "list")
+        conv = {"list": list, "tuple": tuple, "numpy": np.array}[fl]
+        if fl != "list":
+            self.probes["non_list_rows"] += 1
         if w["kind"] == "surface":
-            d.faces += [list(f) for f in w["faces"]]
+            d.faces += [conv(f) for f in w["faces"]]
             self.cur = M.mesh.SurfaceMesh(d)
         elif w["kind"] == "tets":
-            d.cells += [list(c) for c in w["cells"]]
+            d.cells += [conv(c) for c in w["cells"]]
             self.cur = M.mesh.VolumeMesh(d)
         else:
             d.edges += [tuple(e) for e in w["edges"]]
@@ -338,8 +343,12 @@ class C13(Sim):
             names = ["v2v", "v2f", "v2c", "v2e", "next", "opp", "he2c", "direct_face", "face_id", "f2f", "f2e", "f2v", "boundary_edges",
                      "interior_vertices", "boundary_vertices", "is_edge_on_border", "edge_id", "in_face_index", "f2c", "is_triangular", "is_quad"]
             Qt, judge = c01.Q, lambda q, mode, got, exp: c01.judge(q, mode, got, exp, True)
-        for _ in range(nq):
-            q = r.choice(names)
+        # the border family keeps its own lazily built tables (lists and per-element flags): asked more often than its share of the names
+        border_names = [q for q in names if q.startswith(("boundary_", "interior_")) or q.endswith("_on_border")]
+        flags = [q for q in ("is_edge_on_border", "is_vertex_on_border", "is_face_on_border") if q in names]
+        for j in range(nq + len(flags)):
+            # the three per-element border flags are asked once in every observation (each has a table of its own), then the seeded queries
+            q = flags[j] if j < len(flags) else (r.choice(border_names) if r.chance(0.3) else r.choice(names))
             args = helper._gen_args(r, q)
             fam, fn, expf, mode = Qt[q]
             o = call(fn, mesh, mesh.connectivity, *args)
